@@ -157,7 +157,8 @@ class LoggedDiscrete(gym.spaces.Discrete):
 class ScriptEnv(gym.Env):
     metadata = {"render_modes": []}
 
-    def __init__(self, rec: Recorder, script, *, discrete_actions=None, low=(-1.0,), high=(1.0,), discrete_obs=None, env_id=0, max_after_end=3, obs_dim=3):
+    def __init__(self, rec: Recorder, script, *, discrete_actions=None, low=(-1.0,), high=(1.0,), discrete_obs=None, env_id=0, max_after_end=3, obs_dim=3,
+                 act_dtype=np.float32):
         self.rec, self.script, self.env_id = rec, list(script), env_id
         self.discrete_obs = discrete_obs
         if discrete_obs:
@@ -168,7 +169,7 @@ class ScriptEnv(gym.Env):
         if discrete_actions:
             self.action_space = LoggedDiscrete(discrete_actions).attach(rec, env_id)
         else:
-            self.action_space = LoggedBox(low=np.asarray(low, dtype=np.float32), high=np.asarray(high, dtype=np.float32), dtype=np.float32).attach(rec, env_id)
+            self.action_space = LoggedBox(low=np.asarray(low, dtype=act_dtype), high=np.asarray(high, dtype=act_dtype), dtype=act_dtype).attach(rec, env_id)
         self.ep = -1
         self.t = 0
         self.ended = True
